@@ -10,4 +10,6 @@ CONSTANTS
   BackupSingleStep = TRUE
   StreamEndDetected = FALSE
   AbortAfterPartial = TRUE
+  EndMarkerOnlyOnSuccess = TRUE
+  CopyErrorReturned = TRUE
 INVARIANTS TypeOK CutIsError Consistent Complete GateReleased
